@@ -255,3 +255,35 @@ func H17_Isolation() {
 	c1, err1 := plenc.CodecForType(reflect.TypeOf(s))
 	vrt.Assert("package-level CodecForType ok", err1 == nil && c1 != nil)
 }
+
+// H17_DefaultLeak: registrations on the package-level default (also under a
+// tag name) are not visible to other instances, and the other way round.
+func H17_DefaultLeak() {
+	a := MyU(vrt.Int("a"))
+	plenc.RegisterCodecWithTag(reflect.TypeOf(MyU(0)), "mk", markCodecU{})
+	plenc.RegisterCodecWithTag(reflect.TypeOf(int(0)), "odd", markCodecU{})
+	p2 := plainInstance()
+	s := sMyU{A: a, B: a}
+	_, err := p2.Marshal(nil, &s)
+	vrt.Assert("a tagged registration on the default is invisible to another instance", err != nil)
+	type useOdd struct {
+		A int `plenc:"1,odd"`
+	}
+	_, err = p2.Marshal(nil, &useOdd{A: 1})
+	vrt.Assert("a tagged registration for a basic kind on the default is invisible too", err != nil)
+	d, err := plenc.Marshal(nil, &s)
+	vrt.Assert("the default itself uses it", err == nil)
+	exp := append(refTag(nil, 0, 1), refMark(nil, uint32(a))...)
+	if a != 0 {
+		exp = append(refTag(exp, 0, 2), refVarint(nil, refZigZag(int64(a)))...)
+	}
+	vrt.Assert("default: tagged field marker, untagged field kind codec", vrt.BytesEq(d, exp))
+	// an instance that registered nothing under "flat" for a type must not resolve it
+	p3 := new(plenc.Plenc)
+	p3.RegisterCodec(reflect.TypeOf(int(0)), markCodecU{})
+	type useFlat struct {
+		A int `plenc:"1,flat"`
+	}
+	_, err = p3.Marshal(nil, &useFlat{A: 1})
+	vrt.Assert("an instance without a flat codec rejects the flat option", err != nil)
+}
